@@ -53,9 +53,9 @@ type c15Case struct {
 	req    c15Req
 }
 
-func (c *c15Case) tokens(mode string) []string {
-	t := []string{"bind", mode, strconv.Itoa(len(c.fields))}
-	for _, f := range c.fields {
+func c15FieldTokens(fs []c15Field) []string {
+	t := []string{strconv.Itoa(len(fs))}
+	for _, f := range fs {
 		t = append(t, hx([]byte(f.name)), f.ty)
 		if f.hasDef {
 			t = append(t, "D"+hx(f.dflt))
@@ -67,16 +67,21 @@ func (c *c15Case) tokens(mode string) []string {
 			t = append(t, tg.src, hx(tg.content))
 		}
 	}
-	for _, l := range c.req.lists {
+	return t
+}
+
+func c15ReqTokens(r *c15Req) []string {
+	var t []string
+	for _, l := range r.lists {
 		t = append(t, strconv.Itoa(len(l)))
 		for _, e := range l {
 			t = append(t, hx(e.k), hx(e.v))
 		}
 	}
-	t = append(t, hx(c.req.ct), c.req.body)
-	if c.req.body == "J" {
-		t = append(t, strconv.Itoa(len(c.req.members)))
-		for _, m := range c.req.members {
+	t = append(t, hx(r.ct), r.body)
+	if r.body == "J" {
+		t = append(t, strconv.Itoa(len(r.members)))
+		for _, m := range r.members {
 			t = append(t, hx(m.key))
 			t = append(t, m.val...)
 		}
@@ -84,54 +89,78 @@ func (c *c15Case) tokens(mode string) []string {
 	return t
 }
 
-// c15Parse reads the tokens after `bind <mode>`.
-func c15Parse(a []string) *c15Case {
-	i := 0
-	next := func() string { s := a[i]; i++; return s }
-	num := func() int {
-		n, err := strconv.Atoi(next())
-		if err != nil {
-			panic("c15: bad count")
-		}
-		return n
+func (c *c15Case) tokens(mode string) []string {
+	t := append([]string{"bind", mode}, c15FieldTokens(c.fields)...)
+	return append(t, c15ReqTokens(&c.req)...)
+}
+
+// c15Cur reads the tokens of a case.
+type c15Cur struct {
+	a []string
+	i int
+}
+
+func (p *c15Cur) next() string { s := p.a[p.i]; p.i++; return s }
+
+func (p *c15Cur) num() int {
+	n, err := strconv.Atoi(p.next())
+	if err != nil {
+		panic("c15: bad count")
 	}
-	c := &c15Case{}
-	nf := num()
-	for ; nf > 0; nf-- {
-		f := c15Field{name: string(unhx(next())), ty: next()}
-		d := next()
+	return n
+}
+
+func (p *c15Cur) fields() []c15Field {
+	var fs []c15Field
+	for nf := p.num(); nf > 0; nf-- {
+		f := c15Field{name: string(unhx(p.next())), ty: p.next()}
+		d := p.next()
 		if d != "N" {
 			f.hasDef = true
 			f.dflt = unhx(d[1:])
 		}
-		for nt := num(); nt > 0; nt-- {
-			src := next()
-			f.tags = append(f.tags, c15Tag{src, unhx(next())})
+		for nt := p.num(); nt > 0; nt-- {
+			src := p.next()
+			f.tags = append(f.tags, c15Tag{src, unhx(p.next())})
 		}
-		c.fields = append(c.fields, f)
+		fs = append(fs, f)
 	}
+	return fs
+}
+
+func (p *c15Cur) req() c15Req {
+	var r c15Req
 	for li := 0; li < 6; li++ {
-		for n := num(); n > 0; n-- {
-			k := unhx(next())
-			c.req.lists[li] = append(c.req.lists[li], c15KV{k, unhx(next())})
+		for n := p.num(); n > 0; n-- {
+			k := unhx(p.next())
+			r.lists[li] = append(r.lists[li], c15KV{k, unhx(p.next())})
 		}
 	}
-	c.req.ct = unhx(next())
-	c.req.body = next()
-	if c.req.body == "J" {
-		for n := num(); n > 0; n-- {
-			m := c15Member{key: unhx(next())}
-			v := next()
+	r.ct = unhx(p.next())
+	r.body = p.next()
+	if r.body == "J" {
+		for n := p.num(); n > 0; n-- {
+			m := c15Member{key: unhx(p.next())}
+			v := p.next()
 			m.val = []string{v}
 			if v[0] == 'a' {
 				cnt, _ := strconv.Atoi(v[1:])
 				for ; cnt > 0; cnt-- {
-					m.val = append(m.val, next())
+					m.val = append(m.val, p.next())
 				}
 			}
-			c.req.members = append(c.req.members, m)
+			r.members = append(r.members, m)
 		}
 	}
+	return r
+}
+
+// c15Parse reads the tokens after `bind <mode>`.
+func c15Parse(a []string) *c15Case {
+	p := &c15Cur{a: a}
+	c := &c15Case{}
+	c.fields = p.fields()
+	c.req = p.req()
 	return c
 }
 
@@ -329,19 +358,39 @@ func c15NewSession() { c15Session = binding.NewDefaultBinder(nil) }
 
 // c15Bind runs the real Bind on a fresh value of the described type.
 func c15Bind(c *c15Case, binder binding.Binder) (res []string) {
+	return c15Call("a", c.fields, &c.req, binder)
+}
+
+// c15Call runs one entry point of the binder (nil = the package-level functions on the default binder) on a fresh
+// value of the described type: a Bind, v BindAndValidate, p BindPath, f BindForm, q BindQuery, h BindHeader.
+func c15Call(api string, fields []c15Field, r *c15Req, binder binding.Binder) (res []string) {
 	defer func() {
 		if r := recover(); r != nil {
 			res = []string{"PANIC"}
 		}
 	}()
-	t := c15Struct(c.fields)
-	req, ps := c15Request(&c.req)
+	t := c15Struct(fields)
+	req, ps := c15Request(r)
 	v := reflect.New(t)
-	var err error
 	if binder == nil {
-		err = binding.Bind(req, v.Interface(), ps)
-	} else {
+		binder = binding.DefaultBinder()
+	}
+	var err error
+	switch api {
+	case "a":
 		err = binder.Bind(req, v.Interface(), ps)
+	case "v":
+		err = binder.BindAndValidate(req, v.Interface(), ps)
+	case "p":
+		err = binder.BindPath(req, v.Interface(), ps)
+	case "f":
+		err = binder.BindForm(req, v.Interface())
+	case "q":
+		err = binder.BindQuery(req, v.Interface())
+	case "h":
+		err = binder.BindHeader(req, v.Interface())
+	default:
+		panic("c15: bad api " + api)
 	}
 	if err != nil {
 		msg := err.Error()
@@ -889,6 +938,9 @@ func genC15(tier string, rng *Rng) {
 	} else {
 		c15Exhaustive("[]i8", [7]string{"1", "2", "3", "4", "5", "6", "[9]"}, []string{"a1", "i6"}, 7)
 	}
+
+	// sequences of entry-point calls (Bind, BindAndValidate, BindPath/Form/Query/Header) on one binder
+	genC15Seq(tier, rng)
 
 	// structured cases in cold/warm cache orders: A B A on one session binder, then the global binder, then a fresh one
 	for i := 0; i < nRand; i++ {
